@@ -349,10 +349,11 @@ def summarize(F, key):
     conds = {}
     guards = []
     gcount = collections.Counter()
+    lt_all = loop_exit_tests(fn)
     for bi, e, arms, els in switch_conditions(fn, ex=ex):
         if _is_try_switch(fn, bi):
             continue  # `?`: covered by the must/order summaries
-        sig = cond_signature(F, e)
+        sig = cond_signature(F, e, in_loop=(bi in lt_all))
         dl = local_of(fn["blocks"][bi]["term"]["d"])
         if dl is not None and INT_TY.match(fn["locals"][dl]["s"]) and arms and not as_cmp(e) and e.kind not in ("discr", "phi") and not render(e).startswith("discr("):
             # `match height { 0 => .., _ => .. }` switches on the integer itself: the same tests as `height == 0`
@@ -772,14 +773,14 @@ def _head_calls(F, e, depth=0):
     return set()
 
 
-def cond_signature(F, e):
+def cond_signature(F, e, in_loop=True):
     """[op, lhs atoms, rhs atoms] for comparisons (canonical under polarity and operand order), ["branch", atoms, []] for any other test
     of a value (bool call, flag, `match`/`if let` on a call result); None for `?`, log tests, loop headers and tests of nothing stable."""
     txt = render(e)
     if "Try::branch" in txt or "max_level" in txt or "STATIC_MAX_LEVEL" in txt or txt.startswith("PartialOrd::le(Level::"):
         return None
-    if re.match(r"^discr\([A-Za-z0-9_:<>, ]*::next\(", txt[:60]):
-        return None  # the header of a `for` loop (`Iterator::next(..)`, not `next_back` / `next_if`)
+    if in_loop and re.match(r"^discr\([A-Za-z0-9_:<>, ]*::next\(", txt[:60]):
+        return None  # the header of a `for` loop (`Iterator::next(..)`, not `next_back` / `next_if`; `if let Some(x) = it.next()` outside a loop is a test)
     if txt.startswith("phi(0 | 1)") or txt in ("?",):
         return None
     c = as_cmp(e)
